@@ -20,7 +20,7 @@ import eqlgen as G
 from core import Case
 
 PID = "C03"
-LEAN_MODULES = ["KrroodVerif.Props.C03", "KrroodVerif.Props.C03Rules"]
+LEAN_MODULES = ["KrroodVerif.Props.C03", "KrroodVerif.Props.C03Shape", "KrroodVerif.Props.C03Rules"]
 THEOREMS = [
     "KrroodVerif.Dom.C03_sequential_partial",
     "KrroodVerif.Dom.C03_nonoverlap_partial",
@@ -32,6 +32,15 @@ THEOREMS = [
     "KrroodVerif.Dom.C03_cex_interleaved",
     "KrroodVerif.Dom.C03_cex_runtime_error",
     "KrroodVerif.Dom.C03_sequential_decidable_nonvacuous",
+    "KrroodVerif.Dom.step_eq_interp",
+    "KrroodVerif.Dom.stepIdx_eq_interp",
+    "KrroodVerif.Dom.C03_shape_is_model",
+    "KrroodVerif.Dom.C03_shape_is_model_idx",
+    "KrroodVerif.Dom.C03_shape_nonoverlap",
+    "KrroodVerif.Dom.C03_shape_full",
+    "KrroodVerif.Dom.C03_shape_cex",
+    "KrroodVerif.Dom.C03_shape_ok_tight",
+    "KrroodVerif.Dom.C03_shape_handed_out_cached",
     "KrroodVerif.RuleHist.C03_rules_sequential",
     "KrroodVerif.RuleHist.C03_rules_interleaved",
     "KrroodVerif.RuleHist.C03_cex_rule_abandoned",
@@ -39,7 +48,8 @@ THEOREMS = [
     "KrroodVerif.RuleHist.C03_cex_rule_stale_parent",
     # RULE_THEOREMS
 ]
-MODEL_FUNCTION = ("Dom.run / Dom.step / Dom.qnext (Model/Dom.lean); Eql.evalQuery for isolated results; "
+MODEL_FUNCTION = ("Dom.run / Dom.step / Dom.qnext (Model/Dom.lean); Dom.runS / Dom.stepS over the regenerated IterShape "
+                  "(Model/DomShape.lean); Eql.evalQuery for isolated results; "
                   "RuleHist.model = RuleHist.run/step/evalG/growStep (Model/RuleHistory.lean) for rule-query histories")
 TRUSTED = [
     "Lean 4.33 kernel; axioms of each theorem listed under coverage.theorems",
@@ -47,6 +57,11 @@ TRUSTED = [
     "generators of the conclusion selectors over the node state of Model/Rule.lean, _reset_evaluation_state_, stale "
     "_eval_parent_ during tree surgery)",
     "this correspondence harness (schedule enumeration against real query iterators), the S-expression driver",
+    "the translator harness/translate/c03_translate.py (HashedIterable.__iter__/__bool__/add/set_iterable/__post_init__ -> "
+    "IterShape): strict (unrecognised statements are rejected); its reading of the recognised statements and the "
+    "interpreter Dom.stepS of an IterShape are trusted, and validated in every run: the `model=` of every schedule case is "
+    "the machine interpreted from the shape translated in that run (under the eight seeded changes to __iter__ the "
+    "interpreted machine reproduced the real code on every explored schedule, see notes/build_reports/C03_shape.md)",
 ]
 ASSUMPTIONS = [
     "single-threaded use (the engine and the property are single-threaded); CPython dict-view iteration raises "
@@ -70,6 +85,89 @@ def budget(tier: str) -> int:
     return 800 if tier == "quick" else 12000
 
 
+# ---------------------------------------------------------------------------------------------- second tie: translation
+
+_SHAPE = {"done": False, "item": "", "shape": None, "error": None}
+
+
+def _shape():
+    """the IterShape of /repo's CURRENT HashedIterable.__iter__/__bool__ (once per process); `item` is the `(shape …)`
+    text appended to every generated `sched` line ("" when the translator rejects the source: the driver then falls back
+    to the hand-written machine of today's code)"""
+    if not _SHAPE["done"]:
+        import core
+        from translate import c03_translate as T
+        _SHAPE["done"] = True
+        try:
+            d = T.describe((core.REPO / T.FILE).read_text())
+            _SHAPE["shape"], _SHAPE["item"] = d, " " + T.sexp_item(d)
+        except (T.TranslationError, SyntaxError, OSError) as e:
+            _SHAPE["error"] = str(e)
+    return _SHAPE
+
+
+def _check_generated(tag: str, text: str, names):
+    """compile one generated Lean file; per obligation: does the kernel accept it, and on which axioms"""
+    import os
+    import re
+    import subprocess
+    import core
+    tmp = core.LEAN_DIR / ".lake" / "audit"
+    tmp.mkdir(parents=True, exist_ok=True)
+    f = tmp / f"C03{tag}_{os.getpid()}.lean"
+    f.write_text(text + "".join(f"#print axioms {n}\n" for n in names))
+    try:
+        p = subprocess.run(["lake", "env", "lean", str(f)], cwd=str(core.LEAN_DIR), capture_output=True, text=True, timeout=600)
+    finally:
+        try:
+            f.unlink()
+        except OSError:
+            pass
+    out = " ".join(((p.stdout or "") + (p.stderr or "")).split())
+    res = []
+    for n in names:
+        m = re.search(r"'" + re.escape(n) + r"' depends on axioms: \[([^\]]*)\]", out)
+        none = re.search(r"'" + re.escape(n) + r"' does not depend on any axioms", out)
+        ax = [a.strip() for a in m.group(1).split(",")] if m else ([] if none else None)
+        # per obligation: a theorem whose `decide` fails is added with `sorryAx` (or not at all), the others still check
+        ok = ax is not None and set(ax) <= core.ALLOWED_AXIOMS
+        res.append({"name": n, "ok": ok, "axioms": ax, "detail": (p.stdout or "")[-2000:] + (p.stderr or "")[-1000:]})
+    if p.returncode != 0 and all(r["ok"] for r in res):
+        for r in res:       # the file failed for a reason that is none of the obligations: nothing is established
+            r["ok"] = False
+    return res
+
+
+def extra_obligations():
+    """Second, translator-based tie. From /repo's CURRENT hashed_data.py regenerate the `IterShape` of
+    HashedIterable.__iter__/__bool__ and have the kernel re-check, by `decide`, that it is one of the two hand-written
+    machines (`Dom.shape` / `Dom.shapeIdx`) or the snapshot variant, and satisfies `IterOk` (Props/C03Shape.lean turns that into the property on
+    every non-overlapping schedule, for all domains and query families) — and `IterFullOk` (every schedule) once F-C03-1
+    is not an open finding any more."""
+    import core
+    from translate import c03_translate as T
+    open_ids = {f["id"] for f in core.load_findings(PID)[0]}
+    full = "F-C03-1" not in open_ids
+    names = list(T.OBLIGATIONS) + ([T.FULL_OBLIGATION] if full else [])
+    sh = _shape()
+    if sh["shape"] is None:
+        res = [{"name": n, "ok": False, "detail": f"translator rejected the source: {sh['error']}"} for n in names]
+    else:
+        res = _check_generated("Shape", T.render(sh["shape"], full), names)
+    for r in res:
+        if not r["ok"]:
+            d = r.get("detail", "")
+            why = d if d.startswith("translator rejected") else \
+                f"the kernel no longer accepts it for the regenerated shape{sh['item']}"
+            print(f"obligation broken: {r['name']} ({why}); searching a concrete failing input through the correspondence")
+    return res
+
+
+def extra_coverage():
+    sh = _shape()
+    return {"iter_shape": sh["shape"], "iter_shape_translation_error": sh["error"]}
+
+
 # ---------------------------------------------------------------------------------------------- generation
 
 def _sched_line(n, sats, ops, alias=None, tight=False):
@@ -82,7 +180,7 @@ def _sched_line(n, sats, ops, alias=None, tight=False):
         extra += " (alias " + " ".join(f"({j} {i})" for j, i in alias.items()) + ")"
     if tight:
         extra += " (tight)"
-    return f"(sched (n {n}) (sats {s_sats}) (ops {s_ops}){extra})"
+    return f"(sched (n {n}) (sats {s_sats}) (ops {s_ops}){extra}{_shape()['item']})"
 
 
 def _interleavings(a, b):
@@ -101,6 +199,14 @@ def _interleavings(a, b):
 
 def _exhaustive_scheds(tier):
     out = []
+    # a domain WITHOUT elements (the generator is truthy, the cache stays empty): evaluated again and again, in every
+    # interleaving, by two queries; every next() is the end
+    for k0, k1 in ((1, 1), (2, 1), (1, 2), (2, 2)):
+        a = [("start", 0)] + [("next", 0)] * k0
+        b = [("start", 1)] + [("next", 1)] * k1
+        for ops in _interleavings(a, b):
+            out.append(Case(_sched_line(0, {0: [], 1: []}, ops), ("sched", "exhaustive", "n0"), "exhaustive"))
+        out.append(Case(_sched_line(0, {0: [], 1: []}, a + a + b), ("sched", "exhaustive", "n0"), "exhaustive"))
     sizes = [1, 2, 3] if tier == "quick" else [1, 2, 3, 4]
     for n in sizes:
         sat_choices = [list(range(n)), [i for i in range(n) if i % 2 == 0], [n - 1]]
@@ -160,7 +266,7 @@ def _warm_shared_sched(rng):
 
 def _sequential_sched(rng):
     """non-overlapping evaluations with abandonment and repetition (the fragment of C03_sequential_partial)"""
-    n = rng.randrange(1, 5)
+    n = rng.randrange(0, 5)
     k = rng.choice([1, 2, 3])
     sats = {i: sorted(rng.sample(range(n), rng.randrange(0, n + 1))) for i in range(k)}
     ops = []
